@@ -8,7 +8,7 @@ from vlib import scenario, record, agp_model, evolvent_model as em
 LEVEL = "exploration"
 RULE = ("seeded runs on objectives with exactly known Lipschitz constant L on the unit cube and exactly known (cones, quadratic wells, linear, off-box quadratics, constants) or "
         "upper-estimated (sums of sines) global minimum, N=1..3 (quick) / 1..5 (thorough), r in (1,60], eps inside the floating-point domain, densities 2..12, two classes: "
-        "'flat' (K_N*L <= r, bound unconditional) and 'near-threshold' (r*M around K_N*L, minima placed at images of dyadic curve points midway between early trials), plus 'hidden basin' flat objectives: a background of slope far below the floor 1 of M with one narrow cone of slope L ~ r/K_N holding the global minimum, and 'multiscale' objectives (eps far below 2^-m, a narrow steep notch at a dyadic point plus a slightly deeper, gentler basin elsewhere). A run "
+        "'flat' (K_N*L <= r, bound unconditional) and 'near-threshold' (r*M around K_N*L, minima placed at images of dyadic curve points midway between early trials), plus 'hidden basin' flat objectives: a background of slope far below the floor 1 of M with one narrow cone of slope L ~ r/K_N holding the global minimum, and 'multiscale' objectives (eps far below 2^-m, a narrow steep notch at a dyadic point plus a slightly deeper, gentler basin elsewhere) and 'zigzag' objectives (crowded steep teeth, a ramp, a deeper tooth far away; first iterations in one long DoGlobalIteration batch). A run "
         "QUALIFIES when it stopped by accuracy and r*M >= K_N*L held with the M in force when the last interval was selected (reconstructed by the reference model from the "
         "authenticated trial log); for qualifying runs best - f* must be below (r*M_final/2)*eps + L*2^-m*(sqrt(N+3)+sqrt(N)/2) (grid term 0 for N=1). "
         "Non-trivial: qualifying runs; distinct = (family, N, r, eps, m, trial count).")
@@ -52,6 +52,10 @@ def cases(tier, seed):
         eps = float(10 ** rng.uniform(math.log10(max(eps_lo * 1.01, 1e-6 if N == 1 else eps_lo * 1.01)), math.log10(0.3)))
         out.append({"N": N, "lower": lo, "upper": hi, "box": kind, "obj": {"fam": "scaledby", "base": obj, "scale": scale}, "r": r, "eps": eps,
                     "iters": 2000 if tier == "quick" else 3000, "m": m, "refine": False, "cls": cls})
+        if i % 4 == 1:
+            # the first iterations are carried out through DoGlobalIteration batches, Solve takes over (C11 says this is the same search)
+            out[-1]["pattern"] = [["iter", int(v)] for v in rng.integers(3, 40, int(rng.integers(1, 4)))] + [["solve"]]
+            out[-1]["batched"] = True
     # 'hidden basin': a flat objective (K_N*L <= r, bound unconditional) whose gentle slopes stay far below the floor 1 of the
     # estimate M, with a narrow basin of slope L that contains none of the early (dyadic) trial points and holds the global minimum
     nh = 160 if tier == "quick" else 2000
@@ -88,6 +92,10 @@ def cases(tier, seed):
             else:
                 out[-1]["pattern"] = [["solve"], ["iter", int(rng.integers(5, 60))], ["set", "itersLimit", 3000], ["solve"]]
             out[-1]["resumed"] = True
+        elif i % 3 == 1:
+            # ... or after the first iterations were carried out in DoGlobalIteration batches
+            out[-1]["pattern"] = [["iter", int(v)] for v in rng.integers(10, 60, int(rng.integers(1, 4)))] + [["solve"]]
+            out[-1]["batched"] = True
     # 'multiscale': eps far below 2^-m; a narrow steep notch at a dyadic point is found early and refined (its slope, visible only
     # on intervals much shorter than 2^-m, drives M up), while a slightly deeper basin of smaller slope hides between coarse trials
     nm = 48 if tier == "quick" else 600
@@ -109,6 +117,27 @@ def cases(tier, seed):
         obj = {"fam": "cones", "a": [[0.5] * N, a1, a2], "c": [0.0, -d1, -d2], "K": [1e-3, s1, s2]}
         out.append({"N": N, "lower": lo, "upper": hi, "box": kind, "obj": {"fam": "scaledby", "base": obj, "scale": 1.0}, "r": r, "eps": eps,
                     "iters": 20000, "m": m, "refine": False, "cls": "multiscale"})
+    # 'zigzag': several steep narrow teeth crowded on one side (M keeps growing while they are refined), a gentle ramp, and one deeper
+    # tooth on the other side; the first iterations come in one DoGlobalIteration batch long enough to reach eps inside the crowd
+    nz = 64 if tier == "quick" else 800
+    for i in range(nz):
+        rng = scenario.rng_for(seed, "C01Z", i)
+        N, m = 1, 10
+        lo, hi, kind = scenario.gen_box(rng, N)
+        Ls = float(rng.uniform(15, 40))
+        side_l = bool(rng.random() < 0.5)
+        base = 0.02 if side_l else 0.75
+        teeth = [base + 0.05 * j + float(rng.uniform(-0.008, 0.008)) for j in range(int(rng.integers(3, 6)))]
+        deep = float(rng.uniform(0.82, 0.95)) if side_l else float(rng.uniform(0.05, 0.18))
+        a = [[0.5]] + [[t] for t in teeth] + [[deep]]
+        c = [0.6] + [float(rng.uniform(-0.5, 0.2)) for _ in teeth] + [float(rng.uniform(-3.0, -1.5))]
+        K = [1.0] + [Ls] * len(teeth) + [Ls]
+        obj = {"fam": "cones", "a": a, "c": c, "K": K}
+        r = float(rng.uniform(2.05, 2.6))
+        eps = float(10 ** rng.uniform(-2.3, -1.5))
+        pat = [["iter", int(rng.integers(15, 70))], ["solve"]] if i % 4 else [["solve"]]
+        out.append({"N": N, "lower": lo, "upper": hi, "box": kind, "obj": {"fam": "scaledby", "base": obj, "scale": 1.0}, "r": r, "eps": eps,
+                    "iters": 5000, "m": m, "refine": False, "cls": "zigzag", "pattern": pat, "batched": bool(i % 4)})
     return out
 
 
@@ -191,6 +220,8 @@ def run_case(scn):
     obs["qualifying_" + scn["cls"]] = 1
     if scn.get("resumed"):
         obs["qualifying_resumed"] = 1
+    if scn.get("batched"):
+        obs["qualifying_batched"] = 1
     obs["qualifying_N%d" % N] = 1
     obs["max_gap_over_bound"] = max(0.0, ratio)
     obs["trials"] = T
@@ -214,6 +245,6 @@ def finalize(obs, tier, stats):
     miss = [n for n in dims if not obs.get("qualifying_N%d" % n)]
     if miss:
         return "no qualifying run in dimension(s) %s" % miss, {}
-    if not obs.get("qualifying_threshold") or not obs.get("qualifying_flat") or not obs.get("qualifying_hidden") or not obs.get("qualifying_multiscale") or not obs.get("qualifying_resumed"):
+    if not obs.get("qualifying_threshold") or not obs.get("qualifying_flat") or not obs.get("qualifying_hidden") or not obs.get("qualifying_multiscale") or not obs.get("qualifying_resumed") or not obs.get("qualifying_batched") or not obs.get("qualifying_zigzag"):
         return "a scenario class never qualified", {}
     return None, {"qualifying_runs": q, "largest_gap_over_bound": obs.get("max_gap_over_bound")}
